@@ -98,6 +98,8 @@ type Options struct {
 	// NUsers is the number of rich user accounts U0.. (default 6); the last two are poor unless AllRich.
 	NUsers  int
 	AllRich bool
+	// WhaleBits: rich users hold 2^WhaleBits of every funded denom (0 = 200).
+	WhaleBits uint
 	// ExtraDenoms get whale balances for every rich user besides the default set.
 	ExtraDenoms []string
 	// GenesisMod edits the genesis map before InitChain (module name -> json).
@@ -176,8 +178,12 @@ func BuildGenesis(app *simapp.SimApp, users []User, o Options) simapp.GenesisSta
 		if !o.AllRich && len(users) >= 4 && i >= len(users)-2 {
 			coins = sdk.NewCoins(sdk.NewCoin("stake", PoorAmount))
 		} else {
+			whale := Whale
+			if o.WhaleBits != 0 {
+				whale = sdkmath.NewIntFromBigInt(new(big.Int).Lsh(big.NewInt(1), o.WhaleBits))
+			}
 			for _, d := range denoms {
-				coins = coins.Add(sdk.NewCoin(d, Whale))
+				coins = coins.Add(sdk.NewCoin(d, whale))
 			}
 		}
 		balances = append(balances, banktypes.Balance{Address: u.Addr.String(), Coins: coins})
@@ -218,6 +224,15 @@ func BuildGenesis(app *simapp.SimApp, users []User, o Options) simapp.GenesisSta
 	})
 	gs[banktypes.ModuleName] = cdc.MustMarshalJSON(banktypes.NewGenesisState(banktypes.DefaultGenesisState().Params,
 		balances, total, []banktypes.Metadata{}, []banktypes.SendEnabled{}))
+	// htlc's default genesis carries time.Now() of process start (types.DefaultPreviousBlockTime); pin it so
+	// that the genesis is a pure function of the options (a real chain fixes it in genesis.json).
+	var hg htlctypes.GenesisState
+	cdc.MustUnmarshalJSON(gs[htlctypes.ModuleName], &hg)
+	hg.PreviousBlockTime = o.GenesisTime
+	if hg.PreviousBlockTime.IsZero() {
+		hg.PreviousBlockTime = GenesisTimeDefault
+	}
+	gs[htlctypes.ModuleName] = cdc.MustMarshalJSON(&hg)
 	if o.GenesisMod != nil {
 		o.GenesisMod(app, gs)
 	}
